@@ -46,6 +46,11 @@ def store_target(ev):
     return None
 
 
+def ptext_l(ev):
+    r = strip(ev['e'][3])
+    return r[2] if len(r) > 2 and r[2] else str(r[1])
+
+
 def run(P, rep, tier):
     srm = [f for f in P.fns if f.file.endswith('/' + SRM_FILE)]
     if len(srm) < 25:
@@ -271,4 +276,15 @@ def run(P, rep, tier):
     dec = [ev for ev in ro.events(('st',)) if last_field(store_target(ev)) == 'EbObjectWrapper.live_count']
     ok = bool(dec) and any('live_count - 1' in pstr(ev['e']) for ev in dec)
     rep.ob('C23.RELEASE', 'svt_release_object/decrement', ok, ro.loc(), 'live_count is decremented (saturating) under the empty-queue lock')
-    rep.floor('C23.RELEASE', 3)
+    # the release condition is disarmed inside the same critical section: a store that makes `live_count == 0` false for this
+    # wrapper sits on the push path, so a second (stale) svt_release_object on a wrapper that is already back in its pool cannot
+    # push it again - otherwise the empty queue holds the same object twice and two producers are handed the same buffer
+    for f, ev in who:
+        if f.name != 'svt_release_object':
+            continue
+        dis = [e2 for e2 in ro.events(('st',)) if last_field(store_target(e2)) == 'EbObjectWrapper.live_count' and e2['e'][0] == 'a' and e2['e'][1] == '=' and
+               strip(e2['e'][3])[0] == 'l' and strip(e2['e'][3])[1] != 0 and e2['b'] == ev['b']]
+        rep.ob('C23.RELEASE', 'svt_release_object/disarm', bool(dis), f.loc(ev),
+               ('the wrapper is marked released (live_count = %s) on the push path' % ptext_l(dis[0])) if dis else
+               'nothing on the push path makes the release condition false again: a stale second release of a pooled wrapper pushes it into the empty queue twice')
+    rep.floor('C23.RELEASE', 4)
